@@ -109,7 +109,7 @@ def decodeFrame (r : Reader) (bytes : Bytes) : Reader × DF :=
     | 8 => simple (loadWindowUpdate head payload)
     | 0 => simple (loadData head payload)
     | 3 => simple (loadReset head payload)
-    | 7 => simple (loadGoAway payload)
+    | 7 => if head.sid ≠ 0 then (r, connErr) else simple (loadGoAway payload)
     | 2 =>
       if head.sid = 0 then (r, connErr)
       else match loadPriority head payload with
